@@ -149,7 +149,7 @@ EXTRA_MODULES = {
     "C11": ["Pdt.Props.C11Frag"],
     "C08": ["Pdt.Props.C08Simple"],
     "C09": ["Pdt.Props.C09Scope"],
-    "C05": ["Pdt.Props.Lemmas.Sort", "Pdt.Props.Lemmas.Partition"],
+    "C05": ["Pdt.Props.Lemmas.Sort", "Pdt.Props.Lemmas.Partition", "Pdt.Props.Lemmas.KeyOrder"],
     "C04": ["Pdt.Props.Lemmas.Partition"],
 }
 
